@@ -11,7 +11,7 @@ import faulthandler
 from concurrent.futures import ProcessPoolExecutor
 import multiprocessing
 
-RUN_WALL = int(os.environ.get('WSIM_RUN_WALL', '150'))
+RUN_WALL = int(os.environ.get('WSIM_RUN_WALL', '900'))   # one case may be a whole enumeration (C10/C16: up to ~80 runs); hangs inside a run are caught by the 60 s SIGALRM in the taps
 
 
 def run_isolated(fn, arg, wall=RUN_WALL):
